@@ -365,6 +365,20 @@ func (env *e2eEnv) start(procMW []frugal.ServiceMiddleware, provMW []frugal.Serv
 		return err
 	}
 	prov := frugal.NewFServiceProvider(env.tr, env.pf, provMW...)
+	if len(provMW) > 0 && env.rc.Tape.Intn("mwpeek", 4) == 3 {
+		// somebody looks at the provider's middleware and fiddles with the list it was handed (GetMiddleware hands
+		// out a copy): clients made from the provider afterwards still run what the provider was given
+		env.rc.Fault("list-returned-by-GetMiddleware-edited-by-its-caller")
+		got := prov.GetMiddleware()
+		for i := range got {
+			got[i] = func(next frugal.InvocationHandler) frugal.InvocationHandler {
+				return func(service reflect.Value, method reflect.Method, args frugal.Arguments) frugal.Results {
+					env.rc.Violate("C16", "middleware-nobody-supplied-was-run", "client", "a middleware written into the slice returned by FServiceProvider.GetMiddleware() runs for calls of a client made from that provider")
+					return next(service, method, args)
+				}
+			}
+		}
+	}
 	env.client = simsvc.NewFLeafClient(prov, cliMW...)
 	return nil
 }
@@ -673,6 +687,11 @@ func (env *e2eEnv) invoke(p *callPlan) {
 		// the same FContext object goes out again with another timeout and more headers:
 		// what is on the context NOW is what the handler must see
 		ctx = p.reuse.ctx
+		if p.reuse.timeout <= time.Minute && env.rc.Tape.Intn("reusegap", 3) == 2 {
+			// ... some time later: longer than the earlier call was allowed to take
+			env.rc.Fault("fcontext-reused-after-more-than-its-earlier-timeout")
+			settle(p.reuse.timeout + 7*time.Millisecond)
+		}
 		p.cid = ctx.CorrelationID()
 		p.sameCtx = p.reuse.sameCtx
 		env.rc.Fault("fcontext-reused-for-another-call")
